@@ -29,14 +29,14 @@ Qed.
 Theorem read_events_ok : forall parse evs s g,
   read_events parse evs s = Ok g ->
   exists els,
-    doc_elems parse evs s_weight LNone = Some els /\
+    doc_elems parse evs s_weight LNone false = Some els /\
     new_from_nodes_and_edges bytes_eqb bytes_ltb (el_nodes els) (el_edges els)
       (with_directed (el_directed true els) s) = Ok g /\
     sp g = with_directed (el_directed true els) s /\
     directed (sp g) = el_directed true els.
 Proof.
   intros parse evs s g. rewrite read_events_content. unfold doc_content.
-  destruct (doc_elems parse evs s_weight LNone) as [els|]; [|discriminate].
+  destruct (doc_elems parse evs s_weight LNone false) as [els|]; [|discriminate].
   intro H. exists els. split; [reflexivity|]. split; [exact H|].
   pose proof (new_from_specs bytes_eqb bytes_ltb bytes_eqb_eq _ _ _ _ H) as Hs.
   split; [exact Hs|]. rewrite Hs. reflexivity.
